@@ -112,6 +112,28 @@ def handle : Handler := fun op inp impl => do
     return { holds := [("C06.bg_same_final_state", !baseDone || !done || same), ("C06.bg_terminates", !baseDone || done)],
              tags := ["final", if plan == "baseline" then "baseline" else "disturbed", if baseDone then "base-done" else "base-stuck",
                       if done then "run-done" else "run-stuck"] }
+  | "exit" =>
+    let done := flag inp "done"
+    let last ← fStr inp "last"
+    let before ← bsOfJson (← jget inp "before")
+    let after ← bsOfJson (← jget inp "after")
+    let u ← userOfJson (← jget inp "scenario")
+    let rollback := last.startsWith "release:" && (last.drop 8).toString == before.world.currentRevision &&
+      before.world.updateRevision != before.world.currentRevision
+    let delete := last == "delete"
+    let common := (if flag inp "lateRelease" then ["guard:releaseWhileFinalising"] else []) ++
+      (if flag inp "earlyExit" then ["guard:exitBeforeBatchRelease"] else []) ++
+      (if flag inp "cursorCarried" then ["guard:bgCursorCarried"] else []) ++ (if gCsPausedLost u then ["guard:csPausedLost"] else [])
+    if rollback then
+      return { holds := [("C10.bg_rollback_completes", done), ("C06.bg_rollback_completes", done)],
+               tags := ["exit", "exit:rollback", if done then "exit-done" else "exit-stuck"] ++
+                 (if rollbackUnseen after then ["guard:bgRollbackNoSurge"] else []) ++ common }
+    else if delete then
+      return { holds := [("C05.bg_exit_completes", done), ("C06.bg_exit_completes", done)],
+               tags := ["exit", "exit:delete", if done then "exit-done" else "exit-stuck"] ++
+                 (if heldBack before then ["guard:csPartitionKept"] else []) ++ common }
+    else
+      return { holds := [], tags := ["exit", "exit:other", if done then "exit-done" else "exit-stuck"] }
   | _ => .error s!"closedloopbg: unknown op {op}"
 
 end RV.Drv.ClosedLoopBG
